@@ -18,9 +18,12 @@ PROPERTY = 'C06'
 RULE = ('inputs: symmetric sign patterns over {-,0,+} on 4 nodes with >=1 positive and >=1 negative pair and distinct '
         'magnitudes (quick: a fixed third of the patterns with <=4 non-zero pairs; thorough: all of them and <=5), directed '
         'sign patterns on swap quads (+ reciprocal / extra arcs); budgets 1-2 iterations; null models: bin_swaps in {0, one '
-        'iteration} x wei_freq in {0, 1, 0.5}, <=3 positive and <=3 negative connections (permutation menus <= 6!); ALL '
+        'iteration} x wei_freq in {0, 1, 0.5}, <=3 positive and <=3 negative connections (permutation menus <= 6!), plus '
+        '5-node inputs whose negative support is one representative per isomorphism class of 5-edge (thorough: and 6-edge) '
+        'graphs with tied dyadic magnitudes from {1/4,1/2,1} x wei_freq in {0.25,0.5,1}; ALL '
         'generator answers per configuration; non-trivial = configuration with >= 2 distinct reachable outputs')
-ASSUMPTIONS = ['distinct integer magnitudes so every weight is identifiable', 'state merging as in C01',
+ASSUMPTIONS = ['distinct integer magnitudes so every weight is identifiable (4-node inputs); tied dyadic magnitudes with additive '
+               'coincidences on the 5-node null-model inputs', 'state merging as in C01',
                'correlations compared NaN-equal with np.corrcoef recomputed from input and returned matrix']
 
 
@@ -63,6 +66,32 @@ def dir_patterns(thorough):
     return out
 
 
+_ISO = {}
+
+
+def iso_classes5(sizes):
+    """(class tag, edge list) for one representative (smallest bitmask) per isomorphism class of graphs on 5 nodes
+    with the given numbers of edges."""
+    pairs = ss.und_pairs(5)
+    out = []
+    for m in sizes:
+        if m not in _ISO:
+            seen = {}
+            for es in itertools.combinations(range(len(pairs)), m):
+                best = None
+                for p in itertools.permutations(range(5)):
+                    mask = 0
+                    for e in es:
+                        a, b = pairs[e]
+                        a2, b2 = sorted((p[a], p[b]))
+                        mask |= 1 << pairs.index((a2, b2))
+                    best = mask if best is None or mask < best else best
+                seen.setdefault(best, [pairs[e] for e in es])
+            _ISO[m] = [('%de%d' % (m, k), v) for k, (_, v) in enumerate(sorted(seen.items()))]
+        out += _ISO[m]
+    return out
+
+
 def catalogue(thorough):
     cfgs = []
     up = und_patterns(5 if thorough else 4)
@@ -88,6 +117,35 @@ def catalogue(thorough):
             for wf in (0, 1, 0.5):
                 cfgs.append({'fn': 'null_model_und_sign', 'tag': tag, 'W': W,
                              'params': {'bin_iters': bi, 'wei_freq': wf}})
+    # tie-rich dyadic weights with additive coincidences (w1+w2 == w3) on 5 nodes: running strengths can hit
+    # exactly zero while connections are still to be dealt
+    neg_e = [(0, 1), (0, 2), (1, 3), (2, 4), (3, 4)]
+    pos_e = [((0, 3), 1.0), ((1, 4), 0.5)]
+    assign = list(itertools.product((0.25, 0.5), repeat=len(neg_e)))
+    for k, ws in enumerate(assign if thorough else assign[::3]):
+        W = np.zeros((5, 5))
+        for (a, b), w in zip(neg_e, ws):
+            W[a, b] = W[b, a] = -w
+        for (a, b), w in pos_e:
+            W[a, b] = W[b, a] = w
+        for wf in (0.25, 0.5, 1):
+            cfgs.append({'fn': 'null_model_und_sign', 'tag': 'tie5_%d' % k, 'W': W,
+                         'params': {'bin_iters': 0, 'wei_freq': wf}})
+    # one representative per isomorphism class of 5- and 6-edge graphs on 5 nodes as negative support, every
+    # assignment of magnitudes {1/4, 1/2, 1} (quick: every assignment over {1/2, 1}, 5-edge classes only)
+    for cls, edges in iso_classes5((5, 6) if thorough else (5,)):
+        allw = list(itertools.product((0.25, 0.5, 1.0) if thorough else (0.5, 1.0), repeat=len(edges)))
+        for k, ws in enumerate(allw):
+            W = np.zeros((5, 5))
+            for (a, b), w in zip(edges, ws):
+                W[a, b] = W[b, a] = -w
+            free = [(a, b) for a in range(5) for b in range(a + 1, 5) if W[a, b] == 0]
+            if free:
+                a, b = free[0]
+                W[a, b] = W[b, a] = 1.0
+            for wf in (0.25, 0.5, 1):
+                cfgs.append({'fn': 'null_model_und_sign', 'tag': 'neg5_%s_%d' % (cls, k), 'W': W,
+                             'params': {'bin_iters': 0, 'wei_freq': wf}})
     small_d = [(tag, W) for tag, W in dir_patterns(thorough) if np.count_nonzero(W) <= 5]
     small_d = small_d[::(3 if not thorough else 1)]
     for tag, W in small_d:
